@@ -249,7 +249,7 @@ claim('C17', 'other',
       'leaves below the requested group (all levels when recursive) in the root frame, also through Document.paths / Document.paths_from_group; elements with equal path data and no transform keep their own path objects; rect (plain, rounded, rx only), circle, ellipse, polyline, polygon and line convert to d-strings that the interpreted '
       'parser turns into exactly the section 9 geometry for all attribute values; converters touch their element only through .get(); no result of a '
       'pure curve function is discarded; the three readers register the same seven tags with the same converters; every CSS number is in '
-      'the point-list lexer\'s language. Not decided: XML parsing itself, filters, numerics of transform() on arcs.',
+      'the point-list lexer\'s language; wrappers (svgstr2paths, svg2paths2, ...) hand each conversion option to the callee\'s option of the same name (resolved positional/keyword binding). Not decided: XML parsing itself, filters, numerics of transform() on arcs.',
       TRUST + ' XML elements are stubs offering get/iterfind/iter/attrib/tag.', 'DESIGN.md section 3 C17')
 
 claim('C18', 'other',
